@@ -361,7 +361,8 @@ Definition num_norm1 (c : numc) : numc :=
       | [] => mkNum [] (n_num c)
       | s0 :: rest =>
           let cf := fold_left cf_step (map ns_fac rest) (Z.abs (ns_fac s0)) in
-          if Z.eqb cf 1 then mkNum sums (n_num c)
+          (* cf = 0 (a zero factor in front): the code divides by zero there; QueryTotal shows it unreachable *)
+          if Z.eqb cf 1 || Z.eqb cf 0 then mkNum sums (n_num c)
           else
             let f := Z.abs (n_num c) in
             let cf' := if Z.eqb (f mod cf) 0 then cf else cf_down cf f in
